@@ -107,3 +107,9 @@ Definition spec_ok (h : Z) (rows : list (list Z)) : bool :=
 (* NEXP = floor(log2 RMAX) + 1 ; q = 2^(NEXP-7).  In unit u = 2^ue the half quantum is
    2^(NEXP - 8 - ue); callers pick ue <= NEXP - 8.  log2 on Z: *)
 Definition nexp_of (rmax_num : Z) (ue : Z) : Z := Z.log2 rmax_num + ue + 1.
+
+(* Exponent rule of the packer with the range repair (fixes/C20-arl-pack2d-exponent-range.patch):
+   NEXP = floor(log2 RMAX) + 1, one more when RMAX still exceeds 127 quanta 2^(NEXP-7).
+   Relative to the unit: q = 2^(e-7), so RMAX > 127 q  <->  127 * 2^e < 128 * RMAX. *)
+Definition nexp_rule_fixed (r : Z) : Z :=
+  let e := Z.log2 r + 1 in if 127 * 2 ^ e <? 128 * r then e + 1 else e.
